@@ -55,7 +55,8 @@ def jobs(tier, seed):
            ('razz-2', C.stud((2, 7), game='FixedLimitRazz'), {}),
            ('badugi-2', C.fl((3, 5), game='FixedLimitBadugi'), {'discards': ('none', 'first')}),
            ('two-street-hilo-2boards', C.custom((3, 5, 4), C.TWO_STREET_BURN, deck='KUHN9', hand_types=('KuhnAny', 'JQLow'),
-                                             boards=2, mode='cash'), {'runouts': (None, 2)})]
+                                             boards=2, mode='cash'), {'runouts': (None, 2), 'fold_unfaced': True}),
+           ('NT-3-cash-warned-folds', C.nt((3, 6, 6), mode='cash'), {'raises': 'minmax', 'fold_unfaced': True})]
     for fam, cfg, o in big:
         for au in few:
             c = dict(cfg)
